@@ -83,6 +83,16 @@ static const size_t NK3 = 3;
 static const char* const KR[] = { "A", "B", "AB", "BA", "ABA", "AA", "ABAB", "a", "Ab", "A B", "A.B", "AB\xFF", "AAB", "AAAB", "ABB", "ABABB" };
 static const size_t NKR = sizeof(KR) / sizeof(KR[0]);
 
+// Strings with bytes >= 0x80 (UTF-8 sequences as in non-English group / test names, single Latin-1 bytes, 0x7F next to 0x80): the words are
+// chosen so that MANY pairs agree up to and including such a byte and differ only after it ("caf\xC3\xA9" / "caf\xC3\xA8" / "caf\xC3",
+// "\xE2\x82\xAC" / "\xE2\x82\xAD", "AB\xFF" "A" / "AB\xFF" "B"), or differ only in the top bit of one byte ("\xC3\xA9" / "C)"), next to
+// plain prefixes ("caf", "A", "AB"). All words are non-empty and do not start with '-': the same alphabet serves the command-line sections.
+static const char* const KH[] = { "caf\xC3\xA9", "caf\xC3\xA8", "caf\xC3", "caf", "\xC3\xA9", "\xC3\xA8", "\xC3", "\xA9", "\xC3\xA9\xC3\xA9", "\xC3\xA9\xC3\xA8",
+                                  "A\xC3\xA9" "B", "A\xC3\xA9", "\xE2\x82\xAC", "\xE2\x82\xAD", "\xE2\x82", "\xFF", "\x80", "\xFF\xFE", "\xFF" "A", "\xFF" "B",
+                                  "AB\xFF", "AB\xFF" "A", "AB\xFF" "B", "\x7F", "C)", "A", "AB" };
+static const size_t NKH = sizeof(KH) / sizeof(KH[0]);
+struct Alphabet { const char* const* words; size_t n; bool non_ascii; };
+
 // ---------------------------------------------------------------- the model (independent of cpputest)
 static bool m_accept(const FilterSpec& f, const char* s) {
     std::string S(s), F(f.text);
@@ -105,11 +115,22 @@ static std::string requests(const FilterSpec& f) {          // human readable, f
     if (!repeated_requests(f)) return "";
     return std::string("|strictMatching()x") + std::to_string(f.strict ? 1 + f.s_extra : 0) + ",invertMatching()x" + std::to_string(f.invert ? 1 + f.x_extra : 0) + ",order=" + std::to_string(f.order);
 }
+static bool has_high_byte(const char* s) { for (; *s; s++) if ((unsigned char) *s >= 0x80) return true; return false; }
+// the pattern does not occur in the target, but at some position of the target the two agree up to and including the pattern's first byte >= 0x80
+// (a comparison that is only right for 7-bit characters gets exactly these pairs wrong)
+static bool diverges_after_shared_high_byte(const char* pat, const char* tgt) {
+    std::string F(pat), S(tgt);
+    size_t h = 0;
+    while (h < F.size() && (unsigned char) F[h] < 0x80) h++;
+    if (h == F.size() || S.find(F) != std::string::npos) return false;
+    return S.find(F.substr(0, h + 1)) != std::string::npos;
+}
 static std::string relation(const FilterSpec& f, const char* s) {
     std::string S(s), F(f.text);
     if (F.empty()) return "pattern-empty";
     if (S == F) return "pattern-equals-target";
     if (S.find(F) != std::string::npos) return "pattern-proper-substring-of-target";
+    if (diverges_after_shared_high_byte(f.text, s)) return "pattern-not-in-target:diverges-after-a-shared-non-ascii-byte";
     return "pattern-not-in-target";
 }
 
@@ -280,6 +301,27 @@ struct FilterChain {
 static bool check_selection_functions(Checker& k, const std::vector<FilterSpec>& gf, const std::vector<FilterSpec>& nf, FilterChain& G, FilterChain& N) {
     const std::vector<TestSpec>& T = *k.w.specs;
     bool agrees = true;
+    // evidence: what the filters with bytes >= 0x80 were confronted with (counted locally, flushed once per call)
+    uint64_t hb_pairs = 0, hb_near = 0, hb_near_sub = 0, hb_accept = 0, hb_targets = 0;
+    std::vector<const FilterSpec*> hb[2];
+    for (const FilterSpec& f : gf) if (has_high_byte(f.text)) hb[0].push_back(&f);
+    for (const FilterSpec& f : nf) if (has_high_byte(f.text)) hb[1].push_back(&f);
+    for (size_t i = 0; i < T.size(); i++) {
+        if (has_high_byte(T[i].group)) hb_targets++;
+        if (has_high_byte(T[i].name)) hb_targets++;
+        for (int role = 0; role < 2; role++) for (const FilterSpec* f : hb[role]) {
+            const char* target = role ? T[i].name : T[i].group;
+            hb_pairs++;
+            if (diverges_after_shared_high_byte(f->text, target)) { hb_near++; if (!f->strict) hb_near_sub++; }
+            else if (std::string(target).find(f->text) != std::string::npos) hb_accept++;
+        }
+    }
+    if (hb_targets) k.c.count("group_or_name_strings_with_a_byte_above_0x7f_judged", hb_targets);
+    if (hb_pairs) k.c.count("non_ascii_filter_x_target_pairs", hb_pairs);
+    if (hb_accept) k.c.count("non_ascii_filter_x_target_pairs:filter_text_occurs_in_target", hb_accept);
+    if (hb_near) k.c.count("non_ascii_filter_x_target_pairs:diverge_after_a_shared_non_ascii_byte", hb_near);
+    if (hb_near_sub) k.c.count("non_ascii_substring_filter_x_target_pairs:diverge_after_a_shared_non_ascii_byte", hb_near_sub);
+    if (!hb[0].empty() || !hb[1].empty()) k.c.count("filter_configurations_with_a_non_ascii_filter");
     for (size_t i = 0; i < T.size(); i++) {
         bool real = k.w.shells[i]->shouldRun(G.head, N.head);
         bool model = m_selected(gf, nf, T[i]);
@@ -869,9 +911,18 @@ static std::vector<OpSpec> gen_ops(vf::Rng& r) {
     return O;
 }
 
+// the alphabet is a dimension of every random filter section: a quarter of the cases draws all of its group / name / filter strings from the
+// non-ASCII alphabet (the quantifier says "arbitrary group/name strings")
+static Alphabet pick_alphabet(vf::Ctx& c, bool command_line) {
+    if (c.rng.chance(25)) { c.count("cases_drawing_strings_from_the_non_ascii_alphabet"); return Alphabet{ KH, NKH, true }; }
+    return command_line ? Alphabet{ KR, NKR, false } : Alphabet{ K, NK, false };
+}
+
 static void sec_registry(vf::Ctx& c) {
     vf::Rng& r = c.rng;
     auto cs = std::make_shared<Case>();
+    const Alphabet A = pick_alphabet(c, false);
+    const char* const* K = A.words; const size_t NK = A.n;      // (shadows the ASCII alphabet inside this function)
     Pools p = gen_pools(r, K, NK);
     gen_tests(r, gen_size(c), p, cs->tests);
     size_t reps = 1 + r.below(3);
@@ -941,6 +992,37 @@ static void sec_filter_pair(vf::Ctx& c) {
     uint64_t i = c.idx;
     const char* p1 = K2[i % NK2]; i /= NK2; const char* p2 = K2[i % NK2]; i /= NK2;
     unsigned fl = (unsigned) (i % 16); i /= 16; const char* tgt = K2[i % NK2]; i /= NK2; bool name_role = i & 1;
+    auto cs = std::make_shared<Case>();
+    cs->tests.push_back(TestSpec{ name_role ? "G" : tgt, name_role ? tgt : "N", false, false });
+    cs->tests.push_back(TestSpec{ "G", "N", false, false });
+    Phase ph;
+    std::vector<FilterSpec>& F = name_role ? ph.nf : ph.gf;
+    F.push_back(FilterSpec{ p1, (fl & 1) != 0, (fl & 2) != 0 }); F.push_back(FilterSpec{ p2, (fl & 4) != 0, (fl & 8) != 0 });
+    cs->phases.push_back(ph);
+    exec_direct(c, cs, true);
+}
+// exhaustive: one filter x one target over the whole non-ASCII alphabet (every pair of words: equal, contained, agreeing through a byte
+// >= 0x80 and differing after it, differing in the top bit only, ...), four mode combinations, as group filter and as name filter
+static const uint64_t N_SINGLE_H = (uint64_t) NKH * NKH * 4 * 2;
+static void sec_filter_single_non_ascii(vf::Ctx& c) {
+    uint64_t i = c.idx;
+    const char* pat = KH[i % NKH]; i /= NKH; const char* tgt = KH[i % NKH]; i /= NKH;
+    bool strict = i & 1, invert = i & 2; i /= 4; bool name_role = i & 1;
+    auto cs = std::make_shared<Case>();
+    cs->tests.push_back(TestSpec{ name_role ? "G" : tgt, name_role ? tgt : "N", false, false });
+    cs->tests.push_back(TestSpec{ name_role ? "G" : pat, name_role ? pat : "N", false, false });       // (the test the filter is named after)
+    Phase ph; (name_role ? ph.nf : ph.gf).push_back(FilterSpec{ pat, strict, invert });
+    cs->phases.push_back(ph);
+    exec_direct(c, cs, true);
+}
+// exhaustive: two substring / strict filters in one list x one target over the UTF-8 core of the non-ASCII alphabet
+static const char* const KH2[] = { "caf\xC3\xA9", "caf\xC3\xA8", "caf\xC3", "\xC3\xA9", "\xC3\xA8", "\xC3", "\xFF", "\xFF" "A" };
+static const size_t NKH2 = sizeof(KH2) / sizeof(KH2[0]);
+static const uint64_t N_PAIR_H = (uint64_t) NKH2 * NKH2 * 16 * NKH2 * 2;
+static void sec_filter_pair_non_ascii(vf::Ctx& c) {
+    uint64_t i = c.idx;
+    const char* p1 = KH2[i % NKH2]; i /= NKH2; const char* p2 = KH2[i % NKH2]; i /= NKH2;
+    unsigned fl = (unsigned) (i % 16); i /= 16; const char* tgt = KH2[i % NKH2]; i /= NKH2; bool name_role = i & 1;
     auto cs = std::make_shared<Case>();
     cs->tests.push_back(TestSpec{ name_role ? "G" : tgt, name_role ? tgt : "N", false, false });
     cs->tests.push_back(TestSpec{ "G", "N", false, false });
@@ -1195,6 +1277,8 @@ static void exec_setters(vf::Ctx& c, std::shared_ptr<SetterCase> sc) {
 static void sec_setter_history(vf::Ctx& c) {
     vf::Rng& r = c.rng;
     auto sc = std::make_shared<SetterCase>();
+    const Alphabet A = pick_alphabet(c, false);
+    const char* const* K = A.words; const size_t NK = A.n;      // (shadows the ASCII alphabet inside this function)
     Pools p = gen_pools(r, K, NK);
     size_t n = r.chance(60) ? 1 + r.below(12) : gen_size(c);
     gen_tests(r, n, p, sc->tests);
@@ -1226,9 +1310,9 @@ static void sec_setter_history(vf::Ctx& c) {
     exec_setters(c, sc);
 }
 
-static void gen_invocation(vf::Rng& r, const Pools& p, Invocation& iv) {
-    iv.gf = gen_filters(r, p.groups, KR, NKR, false);
-    iv.nf = gen_filters(r, p.names, KR, NKR, false);
+static void gen_invocation(vf::Rng& r, const Pools& p, const Alphabet& A, Invocation& iv) {
+    iv.gf = gen_filters(r, p.groups, A.words, A.n, false);
+    iv.nf = gen_filters(r, p.names, A.words, A.n, false);
     iv.run_ignored = r.chance(30);
     iv.reverse = r.chance(30);
     if (r.chance(45)) { uint64_t s = gen_seed(r) & 0xFFFFFFFFull; iv.shuffle_seed = s ? s : 1; }
@@ -1253,10 +1337,11 @@ static void gen_invocation(vf::Rng& r, const Pools& p, Invocation& iv) {
 static void sec_runner(vf::Ctx& c) {
     vf::Rng& r = c.rng;
     auto rc = std::make_shared<RunnerCase>();
-    Pools p = gen_pools(r, KR, NKR);
+    const Alphabet A = pick_alphabet(c, true);
+    Pools p = gen_pools(r, A.words, A.n);
     gen_tests(r, gen_size(c), p, rc->tests);
     rc->inv.emplace_back();
-    gen_invocation(r, p, rc->inv.back());
+    gen_invocation(r, p, A, rc->inv.back());
     exec_runner(c, rc);
 }
 
@@ -1265,14 +1350,15 @@ static void sec_runner(vf::Ctx& c) {
 static void sec_runner_history(vf::Ctx& c) {
     vf::Rng& r = c.rng;
     auto rc = std::make_shared<RunnerCase>();
-    Pools p = gen_pools(r, KR, NKR);
+    const Alphabet A = pick_alphabet(c, true);
+    Pools p = gen_pools(r, A.words, A.n);
     size_t n = r.chance(50) ? 1 + r.below(12) : gen_size(c);
     gen_tests(r, n, p, rc->tests);
     rc->destroy_runners = r.chance(50);
     size_t ninv = 2 + (r.chance(60) ? 0 : r.below(4));
     for (size_t i = 0; i < ninv; i++) {
         rc->inv.emplace_back();
-        gen_invocation(r, p, rc->inv.back());
+        gen_invocation(r, p, A, rc->inv.back());
     }
     exec_runner(c, rc);
 }
@@ -1284,6 +1370,8 @@ int main(int argc, char** argv) {
         { "filter_pair_table", N_PAIR, N_PAIR, sec_filter_pair, true },
         { "filter_group_x_name_table", N_CROSS, N_CROSS, sec_filter_cross, true },
         { "filter_mode_requests_table", N_REQ, N_REQ, sec_filter_requests, true },
+        { "filter_single_table_non_ascii", N_SINGLE_H, N_SINGLE_H, sec_filter_single_non_ascii, true },
+        { "filter_pair_table_non_ascii", N_PAIR_H, N_PAIR_H, sec_filter_pair_non_ascii, true },
         { "registry_histories", 40000, 600000, sec_registry, false },
         { "registry_setter_histories", 15000, 200000, sec_setter_history, false },
         { "order_operations", 15000, 200000, sec_order, false },
